@@ -35,6 +35,79 @@ def run(repo, chk, tier):
     stratum_buffers(repo, chk)
     estimator(repo, chk)
     forwarding(repo, chk)
+    sampled_sizes(repo, chk)
+
+
+def sampled_sizes(repo, chk):
+    """C04.7g - original stratum weights: in compute_entropies the number of rows a stratum has *in the arrays it is given* (the sample, when
+    r < 1) may size buffers, bound loops over those rows and take part in counting within the sample, but it decides nothing (no comparison),
+    normalises nothing (no quotient) and is not handed on as a stratum size: every weight, normaliser and decision comes from the counts of
+    the full data that are passed in.  With r = 1 both numbers coincide, so a guard or a quotient over the sampled size is invisible to
+    every test of the unsampled estimator and changes the estimate only under sampling."""
+    fn = repo.func(MI, 'compute_entropies')
+    m = fn.module
+    Xp = fn.params[0]
+    par = parents(fn.node)
+    rows, sizes = set(), set()
+
+    def is_rows(e):
+        # np.where(X == v) / np.nonzero / np.flatnonzero (with or without [0]) or a name bound to one
+        if isinstance(e, ast.Name):
+            return e.id in rows
+        if isinstance(e, ast.Subscript) and isinstance(e.slice, ast.Constant) and e.slice.value == 0:
+            return is_rows(e.value)
+        if isinstance(e, ast.Call) and (m.dotted(e.func) or '') in ('numpy.where', 'numpy.nonzero', 'numpy.flatnonzero', 'numpy.argwhere') and len(e.args) == 1:
+            return any(isinstance(x, ast.Name) and x.id == Xp for x in ast.walk(e.args[0]))
+        return False
+
+    def is_size(e):
+        if isinstance(e, ast.Name):
+            return e.id in sizes
+        if isinstance(e, ast.Attribute) and e.attr == 'size':
+            return is_rows(e.value)
+        if isinstance(e, ast.Call) and isinstance(e.func, ast.Name) and e.func.id == 'len' and len(e.args) == 1:
+            return is_rows(e.args[0])
+        if isinstance(e, ast.Subscript) and isinstance(e.slice, ast.Constant) and e.slice.value == 0 and isinstance(e.value, ast.Attribute) and e.value.attr == 'shape':
+            return is_rows(e.value.value)
+        return False
+    stores = {}
+    for n in own_nodes(fn.node):
+        if isinstance(n, ast.Name) and isinstance(n.ctx, ast.Store):
+            stores[n.id] = stores.get(n.id, 0) + 1
+    for _ in range(3):
+        for n in own_nodes(fn.node):
+            if isinstance(n, ast.Assign) and len(n.targets) == 1 and isinstance(n.targets[0], ast.Name) and stores.get(n.targets[0].id) == 1:
+                if is_rows(n.value):
+                    rows.add(n.targets[0].id)
+                elif is_size(n.value):
+                    sizes.add(n.targets[0].id)
+    bad = []
+    n_uses = 0
+    for n in own_nodes(fn.node):
+        if not is_size(n) or not isinstance(getattr(n, 'ctx', ast.Load()), ast.Load):
+            continue
+        p = par.get(n)
+        if isinstance(n, ast.Name) and isinstance(p, ast.Assign) and n in p.targets:
+            continue
+        # skip the inner nodes of a size expression (len(rows): the Name rows is not a size itself)
+        if isinstance(p, ast.Assign) and p.value is n and isinstance(p.targets[0], ast.Name):
+            continue      # sz = rows.size
+        n_uses += 1
+        # decides (a comparison), normalises (a quotient) or is handed on as a stratum size (argument of another function of the kernel):
+        # counting within the sample (size - positives, counting rows down) is what the sample is for
+        decides = isinstance(p, ast.Compare)
+        normalises = isinstance(p, ast.BinOp) and isinstance(p.op, (ast.Div, ast.FloorDiv))
+        handed_on = isinstance(p, ast.Call) and isinstance(p.func, ast.Name) and p.func.id in m.funcs and n in p.args
+        if decides or normalises or handed_on:
+            bad.append(n)
+    if bad:
+        st = bad[0]
+        while par.get(st) is not None and not isinstance(st, ast.stmt):
+            st = par.get(st)
+        chk.bad('C04.7g', 'R1', fn.site(bad[0]), ast.unparse(st).split('\n')[0][:120], 'the number of rows of the stratum in the (sampled) arrays decides or weights something: under sampling a stratum holds fewer rows than its full-data count, '
+                'so the estimate no longer uses the original stratum weights (with r = 1 both numbers are equal and nothing shows)')
+    else:
+        chk.ok('C04.7g', 'R1', fn.site(), f'{n_uses} use(s) of the sampled stratum size: none in a comparison, a quotient or as the stratum size of a helper', 'weights, normalisers and decisions of the kernel come from the full-data counts')
 
 
 def _top_stmts(fn):
